@@ -60,7 +60,7 @@ theorem executing_reentry_typeerror (fuel : Nat) (cmd : Cmd) :
 /-- … and that is what a re-entrant call made by the running body evaluates to: an abrupt TypeError at the call. -/
 theorem body_reentry_throws (kd : CmdKind) (env : List Val) (k : List Frame) :
     step { ctl := .evalE (.reent kd), env := env, k := k }
-      = .cont { ctl := .abrupt (.thr .terr), env := env, k := k } [] := by
+      = .cont { ctl := .abrupt (.thr .terr), env := env, k := k } panicMark := by
   cases kd <;> rfl
 
 /-- The first next(v) ignores v. -/
@@ -73,22 +73,22 @@ theorem start_next_ignores_payload (fuel : Nat) (c : Conf) (v w : Val) :
 logs reaches the bottom with the log `finLogs k`: each pending finally block's log exactly once, in stack order
 (innermost first), iterators of enclosing for-of loops closed in between; then the generator answers
 `{value: v, done: true}`. -/
-theorem return_runs_finallies_once (v : Val) (b : Bool) (k : List Frame) (env : List Val) (hk : SimpleFins k) :
-    Reach { ctl := .abrupt (.ret v b), env := env, k := k } (finLogs k) { ctl := .abrupt (.ret v b), env := env, k := [] } ∧
-    step { ctl := .abrupt (.ret v b), env := env, k := [] } = .finished (.d v) [] :=
-  ⟨unwind_ret v b k env hk, rfl⟩
+theorem return_runs_finallies_once (v : Val) (k : List Frame) (env : List Val) (hk : SimpleFins k) :
+    Reach { ctl := .abrupt (.ret v), env := env, k := k } (finLogs k) { ctl := .abrupt (.ret v), env := env, k := [] } ∧
+    step { ctl := .abrupt (.ret v), env := env, k := [] } = .finished (.d v) [] :=
+  ⟨unwind_ret v k env hk, rfl⟩
 
 /-- The same at the level of the fuelled interpreter / generator object: with enough fuel, return(v) on a generator
 suspended at a plain yield under `k` logs exactly `finLogs k` and completes with v. -/
 theorem return_cmd_runs_finallies_once (v : Val) (k : List Frame) (env : List Val) (ctl : Ctl) (hk : SimpleFins k) :
     ∃ m, ∀ n, genCall (n + m) (.susp { ctl := ctl, env := env, k := k } none) ⟨.ret, v⟩ = (finLogs k, .d v, .completed) := by
-  obtain ⟨m, hm⟩ := run_of_reach (unwind_ret v true k env hk)
+  obtain ⟨m, hm⟩ := run_of_reach (unwind_ret v k env hk)
   refine ⟨m + 1, ?_⟩
   intro n
   have h1 : n + (m + 1) = (n + 1) + m := by omega
   simp only [genCall, genPre, GState.tag, resumeCtl]
   rw [h1, hm]
-  simp [run, step, stepAbrupt, StepOut.addEv, throwMarks, ofRun]
+  simp [run, step, stepAbrupt, ofRun]
 
 /-- A yield inside a finally block that runs because of return(v) re-suspends the generator: the call answers
 `{value: a, done: false}`, and the pending return completion is kept in the continuation (frame `finK`). -/
@@ -96,19 +96,19 @@ theorem return_yield_in_finally_resuspends (fuel : Nat) (v a : Val) (cc : Option
     (k : List Frame) (env : List Val) (ctl : Ctl) :
     genCall (fuel + 5)
         (.susp { ctl := ctl, env := env, k := .tryK cc (some (.expr (.yld (.lit a)) :: rest)) :: k } none) ⟨.ret, v⟩
-      = ([], .y a, .susp { ctl := .val .undef, env := env, k := .seqK rest :: .finK (some (.ret v true)) false :: k } none) := by
+      = ([], .y a, .susp { ctl := .val .undef, env := env, k := .seqK rest :: (.finK (some (.ret v))) :: k } none) := by
   cases cc <;> rfl
 
 /-- … and when it is resumed by next(), the rest of the finally block runs and the pending return continues outward. -/
 theorem resumed_finally_continues_return (v w : Val) (vs : List Val) (k : List Frame) (env : List Val) (hk : SimpleFins k) :
-    Reach { ctl := .val w, env := env, k := .seqK (litLogs vs) :: .finK (some (.ret v true)) false :: k }
-          (vs.map showVal ++ finLogs k) { ctl := .abrupt (.ret v true), env := env, k := [] } := by
-  have s1 : step { ctl := .val w, env := env, k := .seqK (litLogs vs) :: .finK (some (.ret v true)) false :: k }
-      = .cont { ctl := .exec (litLogs vs), env := env, k := .finK (some (.ret v true)) false :: k } [] := rfl
-  have r1 := reach_litLogs vs env (.finK (some (.ret v true)) false :: k)
-  have s2 : step { ctl := .val .undef, env := env, k := .finK (some (.ret v true)) false :: k }
-      = .cont { ctl := .abrupt (.ret v true), env := env, k := k } [] := rfl
-  have := Reach.cons s1 (Reach.trans r1 (Reach.cons s2 (unwind_ret v true k env hk)))
+    Reach { ctl := .val w, env := env, k := .seqK (litLogs vs) :: (.finK (some (.ret v))) :: k }
+          (vs.map showVal ++ finLogs k) { ctl := .abrupt (.ret v), env := env, k := [] } := by
+  have s1 : step { ctl := .val w, env := env, k := .seqK (litLogs vs) :: (.finK (some (.ret v))) :: k }
+      = .cont { ctl := .exec (litLogs vs), env := env, k := (.finK (some (.ret v))) :: k } [] := rfl
+  have r1 := reach_litLogs vs env ((.finK (some (.ret v))) :: k)
+  have s2 : step { ctl := .val .undef, env := env, k := (.finK (some (.ret v))) :: k }
+      = .cont { ctl := .abrupt (.ret v), env := env, k := k } [] := rfl
+  have := Reach.cons s1 (Reach.trans r1 (Reach.cons s2 (unwind_ret v k env hk)))
   simpa using this
 
 /-! Hypotheses are satisfiable by non-trivial states (tests, not proofs of the property). -/
@@ -135,7 +135,7 @@ theorem suspend_leaves_caller_clean (vm : VM) (T I R : Nat) :
 iter/ref slices; `sb` is rebased to the new `sp + 1`. -/
 theorem resume_suspend_shift (vm vm2 : VM) (T I R : Nat) :
     (resume vm2 (suspend vm T I R).1).tryStack
-        = vm2.tryStack ++ (vm.tryStack.drop T).map (fun tf => shifted tf I R (vm.cur.sb - 1) vm2) ∧
+        = vm2.tryStack ++ (vm.tryStack.drop T).map (fun tf => shifted tf I R (vm.cur.sb - 1).toNat vm2) ∧
     (resume vm2 (suspend vm T I R).1).stack = vm2.stack ++ vm.stack.drop (vm.cur.sb - 1).toNat ∧
     (resume vm2 (suspend vm T I R).1).iterStack = vm2.iterStack ++ vm.iterStack.drop I ∧
     (resume vm2 (suspend vm T I R).1).refStack = vm2.refStack ++ vm.refStack.drop R ∧
@@ -148,27 +148,24 @@ theorem resume_suspend_shift (vm vm2 : VM) (T I R : Nat) :
 
 /-- Hence the generator-relative view of every frame (offsets relative to the generator's own bases) is the same
 before suspension and after resumption at any other site. -/
-theorem resume_suspend_relView (vm vm2 : VM) (T I R : Nat) (hf : FramesAbove (vm.tryStack.drop T) I R) :
+theorem resume_suspend_relView (vm vm2 : VM) (T I R : Nat) (hf : FramesAbove (vm.tryStack.drop T) I R (vm.cur.sb - 1).toNat) :
     ((resume vm2 (suspend vm T I R).1).tryStack.drop vm2.tryStack.length).map
         (fun tf => relView tf vm2.iterStack.length vm2.refStack.length vm2.stack.length)
-      = (vm.tryStack.drop T).map (fun tf => relView tf I R (vm.cur.sb - 1)) := by
+      = (vm.tryStack.drop T).map (fun tf => relView tf I R (vm.cur.sb - 1).toNat) := by
   have h := (resume_suspend_shift vm vm2 T I R).1
   rw [h, List.drop_left, List.map_map]
   apply List.map_congr_left
   intro tf htf
-  exact relView_shifted tf I R (vm.cur.sb - 1) vm2 (hf tf htf).1 (hf tf htf).2
+  exact relView_shifted tf I R (vm.cur.sb - 1).toNat vm2 (hf tf htf).1 (hf tf htf).2.1 (hf tf htf).2.2
 
 /-- `handleThrow` after resume selects the handler it would have selected before suspension: same catch position,
-same finally position, or propagation out of the generator — at ANY new call site `vm2`, for any number of dead
-frames on top.  `_partial`: only the selected handler (`Outcome`) is proved equal; that the resulting vm STATES are
-again equal up to the shift (stack cut at the shifted `sp`, iter/ref stacks cut at the shifted lengths) and the
-variant with extra call frames above the generator (context restoration, vm.go:809-814) are not proved here — the
-frame arithmetic they depend on is `resume_suspend_shift` / `resume_suspend_relView`. -/
-theorem resume_suspend_commutes_handleThrow_partial (ex : Nat) (vm vm2 : VM) (T I R : Nat)
+same finally position, or propagation out of the generator — at ANY new call site `vm2`, for ANY vm (not necessarily
+in `rebase` form), through any number of dead frames.  (The state-equality version is `resume_suspend_commutes_handleThrow`.) -/
+theorem resume_suspend_handleThrow_same_handler (ex : Nat) (vm vm2 : VM) (T I R : Nat)
     (hlive : ∃ tf ∈ vm.tryStack.drop T, ¬ tf.dead) :
     (handleThrow ex (resume vm2 (suspend vm T I R).1)).1 = (handleThrow ex vm).1 := by
   have h2 := (resume_suspend_shift vm vm2 T I R).1
-  refine (handleThrow_outcome_segment ex (fun tf => shifted tf I R (vm.cur.sb - 1) vm2)
+  refine (handleThrow_outcome_segment ex (fun tf => shifted tf I R (vm.cur.sb - 1).toNat vm2)
     (fun tf => ⟨(shifted_handlers tf I R _ vm2).1, (shifted_handlers tf I R _ vm2).2.1⟩)
     (vm.tryStack.drop T).reverse vm _ (vm.tryStack.take T) vm2.tryStack ?_ ?_ ?_).symm
   · simp
@@ -176,11 +173,53 @@ theorem resume_suspend_commutes_handleThrow_partial (ex : Nat) (vm vm2 : VM) (T 
   · obtain ⟨tf, hm, hl⟩ := hlive
     exact ⟨tf, by simpa using hm, hl⟩
 
+/-! ### State equality: every mechanism step on the generator-owned part commutes with a change of caller
+
+`rebase lo g` = the generator-owned vm part `g` (offsets relative to its own bottom; it may have call frames above the
+generator's own) standing on top of the caller's vm `lo`.  -/
+
+/-- `handleThrow` does the same thing to the generator-owned part whatever the caller below: same handler, same
+iterators closed, and the resulting vm is the re-based image of ONE site-independent result — including extra call
+frames above the generator (context restoration from `callStack[tf.callStackLen]`, vm.go:809-814) and any number of
+dead frames. -/
+theorem handleThrow_site_independent (ex : Nat) (lo1 lo2 g : VM) (hlive : ∃ tf ∈ g.tryStack, ¬ tf.dead) :
+    handleThrow ex (rebase lo1 g) = rebaseRes lo1 (handleThrow ex g) ∧
+    handleThrow ex (rebase lo2 g) = rebaseRes lo2 (handleThrow ex g) := by
+  have h : ∀ lo, handleThrow ex (rebase lo g) = rebaseRes lo (handleThrow ex g) := fun lo =>
+    handleThrow_rebase ex lo g.tryStack.reverse g [] (by simp)
+      (by obtain ⟨tf, hm, hl⟩ := hlive; exact ⟨tf, by simpa using hm, hl⟩)
+  exact ⟨h lo1, h lo2⟩
+
+/-- suspend ∘ resume IS a change of caller: a generator part standing at a yield on `lo`, suspended with `lo`'s
+recorded lengths and resumed on ANY `vm2`, is the same part standing on `vm2`. -/
+theorem resume_suspend_is_rebase (lo vm2 g : VM) (hg : AtYield g) :
+    resume vm2 (suspend (rebase lo g) lo.tryStack.length lo.iterStack.length lo.refStack.length).1 = rebase vm2 g :=
+  resume_suspend_rebase lo vm2 g hg
+
+/-- Resuming at the very site of suspension restores the vm exactly. -/
+theorem resume_suspend_id (lo g : VM) (hg : AtYield g) :
+    resume lo (suspend (rebase lo g) lo.tryStack.length lo.iterStack.length lo.refStack.length).1 = rebase lo g :=
+  resume_suspend_rebase lo lo g hg
+
+/-- Full-strength commutation: `handleThrow` after suspend + resume at any other site acts exactly as it would have
+acted before suspension — the two results are the images, over the two callers, of the same generator-relative
+result (outcome, closed iterators and state). -/
+theorem resume_suspend_commutes_handleThrow (ex : Nat) (lo vm2 g : VM) (hg : AtYield g) (hlive : ∃ tf ∈ g.tryStack, ¬ tf.dead) :
+    handleThrow ex (resume vm2 (suspend (rebase lo g) lo.tryStack.length lo.iterStack.length lo.refStack.length).1)
+        = rebaseRes vm2 (handleThrow ex g) ∧
+    handleThrow ex (rebase lo g) = rebaseRes lo (handleThrow ex g) := by
+  rw [resume_suspend_rebase lo vm2 g hg]
+  exact (handleThrow_site_independent ex vm2 lo g hlive)
+
+example : AtYield { cur := { sb := 1, pc := 7 }, stack := [9, 1, 2], callStack := [], iterStack := [5], refStack := [],
+                    tryStack := [{ callStackLen := 0, iterLen := 1, refLen := 0, sp := 2, stash := 0, catchPos := 4, finallyPos := 8 }] } := by
+  refine ⟨rfl, rfl, ?_⟩; intro tf h; simp at h; subst h; rfl
+
 /-- `leaveTry` (popTryFrame) after resume pops the shifted image of the frame it would have popped before. -/
 theorem resume_suspend_commutes_leaveTry (vm vm2 : VM) (T I R : Nat) (seg : List TryFrame) (tf : TryFrame)
     (h : vm.tryStack.drop T = seg ++ [tf]) :
     (popTryFrame (resume vm2 (suspend vm T I R).1)).tryStack
-      = vm2.tryStack ++ seg.map (fun tf => shifted tf I R (vm.cur.sb - 1) vm2) := by
+      = vm2.tryStack ++ seg.map (fun tf => shifted tf I R (vm.cur.sb - 1).toNat vm2) := by
   have h2 := (resume_suspend_shift vm vm2 T I R).1
   simp only [popTryFrame, h2, h, List.map_append, List.map_cons, List.map_nil]
   rw [← List.append_assoc, List.dropLast_concat]
@@ -206,27 +245,27 @@ theorem next_yield_cycle_restores_caller (g : Gen) (vm0 vmB : VM) (hasValue : Bo
     cases hasValue <;> simp_all [List.take_append]
 
 /-! Non-vacuity of the hypotheses above (tests). -/
-example : FramesAbove [{ callStackLen := 3, iterLen := 2, refLen := 1, sp := 9, stash := 0, catchPos := 4, finallyPos := -1 }] 1 1 := by
+example : FramesAbove [{ callStackLen := 3, iterLen := 2, refLen := 1, sp := 9, stash := 0, catchPos := 4, finallyPos := -1 }] 1 1 4 := by
   intro tf h; simp at h; subst h; simp
 
 end GojaModel.C09
 
 namespace GojaModel.C09
 
-/-! ## Known deviations of the pinned goja (known_findings.d/C09.json): what the SPEC answers on the minimal inputs.
+/-! ## Regression lemmas: what the SPEC answers on the minimal inputs of the two defects repaired by 379f30d / 8004794.
 These are facts about the spec model on literals (tests of the model, and the reference answers for the replays). -/
 
 /-- `function*g(){try{yield 1}catch(e){x0=e}finally{yield 3}}` driven by next, next, throw(9): the throw delivered
-inside the finally block leaves the generator (goja: caught by the statement's own catch, yields 3 again). -/
-theorem known_defect_A_spec_witness :
+inside the finally block leaves the generator (goja before 379f30d: caught by the statement's own catch, yields 3 again). -/
+theorem spec_answer_throw_in_finally_regression :
     (genRun 50 [.tryS [.expr (.yld (.lit (.num 1)))] (some (0, [])) (some [.expr (.yld (.lit (.num 3)))])]
         [⟨.next, .undef⟩, ⟨.next, .undef⟩, ⟨.throw, .num 9⟩]).1
       = [.y (.num 1), .y (.num 3), .t (.num 9)] := by decide
 
 /-- `function*g(){try{try{yield 1}finally{throw 5}}catch(e){x0=e}finally{} return 9}` driven by next, return(7):
 the throw raised inside the return-triggered finally is caught by the enclosing catch and the generator returns 9
-(goja: the exception escapes every enclosing handler, including the caller's). -/
-theorem known_defect_B_spec_witness :
+(goja before 8004794: the exception escaped every enclosing handler, including the caller's). -/
+theorem spec_answer_throw_in_return_finally_regression :
     (genRun 50 [.tryS [.tryS [.expr (.yld (.lit (.num 1)))] none (some [.thr (.lit (.num 5))])] (some (0, [])) (some []),
                 .ret (.lit (.num 9))]
         [⟨.next, .undef⟩, ⟨.ret, .num 7⟩]).1
